@@ -177,7 +177,8 @@ class World:
             rate = rng_.choice(rates)
             wm = whitelist_mode or rng_.choice(["two", "two", "two", "one", "one", "two", "one", "empty"])
             wl = {"two": ["lp1", "lp2"], "one": ["lp1"], "empty": []}[wm]
-            mins = [rng_.choice([0, 0, 1, 1000]), rng_.choice([0, 0, 1, 1000])]
+            big = 1 << self.scale_bits
+            mins = [rng_.choice([0, 0, 1, 1000, big, big >> 2]), rng_.choice([0, 0, 1, 1000, big, big >> 3])]
             self.create_pair(a0, a1, rate, wl, mins)
         # allowances
         for p in self.pairs:
